@@ -94,6 +94,9 @@ def candidates(name, cls):
                        for o, ch in zip(name, c))
     out = [match_case(c) for c in out]
     out = [c for c in out if all((o.isupper() == ch.isupper()) for o, ch in zip(name, c))]
+    if any(ch.isupper() for ch in name) and any(ch.islower() for ch in name):
+        # a mixed-case name: the letter that makes it mixed must stay a letter of that case
+        out = [c for c in out if all((o.islower() == ch.islower()) for o, ch in zip(name, c))]
     res = []
     for c in out:
         if c != name and len(c) == len(name) and c not in KEYWORDS and c not in SPECIAL and c.lower() not in KEYWORDS \
@@ -165,6 +168,79 @@ def file_task(task):
     return n, out, len(ids), base_text
 
 
+PROTECTED_PREFIXES = ("ft_", "g_", "s_", "t_", "u_", "e_")
+
+
+def sample_task(task):
+    """Worker: one sample input of norminette's own tests, at token level: every IDENTIFIER token that is not a name the
+    tool treats specially is a user identifier; its naming-class prefix (case-insensitively) and case pattern are kept."""
+    from .. import impl
+    from ..model import lexref
+    fname, text, percap = task
+    t, errs, exc = impl.lex(text, fname)
+    if t is None:
+        return 0, [], 0
+    al = lexref.align(text, t, set())
+    if not al["ok"]:
+        return 0, [], 0
+    guard = fname.upper().replace(".", "_")
+    occ = {}
+    for x, (a, b) in zip(t, al["spans"]):
+        if x.type != "IDENTIFIER" or text[a:b] != x.value:
+            continue
+        name = x.value
+        ls = text.rfind("\n", 0, a) + 1
+        head = text[ls:a].replace(" ", "").replace("\t", "")
+        if head.startswith(("#include", "#import", "#pragma", "#error", "#warning")) or head == "#":
+            occ.setdefault(name, None)          # a directive name or part of an include path: never renamed
+            occ[name] = None
+            continue
+        if name in KEYWORDS or name in SPECIAL or name in LIBRARY or name.upper() == guard or name.startswith("__"):
+            occ[name] = None
+            continue
+        if name in occ and occ[name] is None:
+            continue
+        occ.setdefault(name, []).append((a, b))
+    ids = {n_: v for n_, v in occ.items() if v}
+    base = diffcommon.diag4(fname, text)
+    cands = {}
+    for name in ids:
+        pfx = next((p_ for p_ in PROTECTED_PREFIXES if name.lower().startswith(p_) and len(name) > len(p_)), "")
+        free = name[len(pfx):]
+        cs = [name[:len(pfx)] + c for c in candidates(free, "var")]
+        cands[name] = [c for c in cs if c not in occ and not c.lower().startswith(PROTECTED_PREFIXES) or c.lower().startswith(pfx) and pfx]
+        cands[name] = [c for c in cands[name] if c not in occ]
+    out = []
+    n = 0
+
+    def judge(mapping, label):
+        nonlocal n
+        if len(set(mapping.values())) != len(mapping) or set(mapping.values()) & set(occ):
+            return
+        edits = sorted((a, b, new) for name, new in mapping.items() for a, b in ids[name])
+        parts, last = [], 0
+        for a, b, new in edits:
+            parts.append(text[last:a] + new)
+            last = b
+        parts.append(text[last:])
+        v = "".join(parts)
+        n += 1
+        got = diffcommon.diag4(fname, v)
+        if got != base:
+            x, y = set(got[0]), set(base[0])
+            out.append((label, f"renaming {mapping}: only after {sorted(x - y)[:3]}, only before {sorted(y - x)[:3]}, "
+                               f"exc {got[1]} vs {base[1]}", v))
+
+    for name, cs in cands.items():
+        for i, c in enumerate(cs[:percap]):
+            judge({name: c}, f"sample:single:{'map' if i < 3 else 'other'}")
+    for i in range(3):
+        mapping = {name: cs[i] for name, cs in cands.items() if len(cs) > i}
+        if mapping:
+            judge(mapping, "sample:all:map")
+    return n, out, len(ids)
+
+
 def run(tier, seed):
     st = explore.Stats()
     files = diffcommon.carrier_files(tier, 60 if tier == "quick" else 600, 60 if tier == "quick" else 0)
@@ -177,6 +253,16 @@ def run(tier, seed):
         nid += k
         for label, detail, text in out:
             failures.append(Failure("C18", label, f"{t[0]}: {detail[:300]}", {"fname": t[0], "text": text, "base": base_text}))
+    from .. import corpus
+    smp = [(fn, tx, 4 if tier == "quick" else 40) for fn, tx in corpus.samples()]
+    sres = explore.pmap(sample_task, smp, chunksize=1)
+    nsid = 0
+    for (fn, tx, _), (n, out, k) in zip(smp, sres):
+        st.runs += n
+        nsid += k
+        for label, detail, text in out:
+            failures.append(Failure("C18", label, f"{fn}: {detail[:300]}", {"fname": fn, "text": text, "base": tx}))
+    st.bump("sample_identifiers_renamed", nsid)
     st.bump("identifiers_renamed", nid)
     if nid < 100:
         raise HarnessError("no identifiers to rename")
